@@ -134,7 +134,7 @@ Section Run.
     destruct (Hrows k (N.to_nat c)) as [es' [Hg' Hn]].
     - eapply dense_lt; [apply (inv_dense _ _ _ _ I)|exact Hin].
     - lia.
-    - unfold transition. rewrite Hlang, Hn, N2Nat.id. congruence.
+    - unfold transition. rewrite (proj2 (N.ltb_lt c 256) Hc), Hlang, Hn, N2Nat.id. congruence.
   Qed.
 
   (* no move on c from the subset of s0: nothing is reachable by s0 c w *)
